@@ -15,7 +15,13 @@
      pwdkey                -> <hex>
      consts                -> <separator bytes> <quote byte>   (the regenerated literals of the tokenizer)
      cmp <neg> <env> <name1> <name2> <text1> <text2> -> true|false   do_cmd_cmp in the current state (neg, env: 0|1)
-     holds <line> <k> <v>  -> true|false              c02_holds_on state cd line k v *)
+     holds <line> <k> <v>  -> true|false              c02_holds_on state cd line k v
+     script <hex>          -> <n> [; fail | ; args <word>*]*   run_script: the whole script text is cut into
+                                                      lines by the model and every line goes through ts_step
+                                                      (the state is updated); one result per line, in order
+     split <hex>           -> <n> <length>*           script_lines_tr only: number of lines and their lengths
+     cd <hex>              -> ok                      hstep (HCd dir): ts.cd := dir
+     listing               -> none | l <key>=<value>* env_listing (key and value in hex, joined by "=") *)
 let st = ref (setup_env [])
 let cd = ref []
 let hexes l = String.concat " " (List.map hex_of_bytes l)
@@ -43,5 +49,19 @@ let () = serve (function
   | ["cmp"; neg; env; n1; n2; t1; t2] ->
       string_of_bool (do_cmd_cmp !st (neg = "1") (env = "1") (bytes_of_hex n1) (bytes_of_hex n2) (bytes_of_hex t1) (bytes_of_hex t2))
   | ["holds"; l; k; v] -> string_of_bool (c02_holds_on !st !cd (bytes_of_hex l) (bytes_of_hex k) (bytes_of_hex v))
+  | ["script"; x] ->
+      let (s, rs) = run_script !st (bytes_of_hex x) in
+      st := s;
+      String.concat " ; " (string_of_int (List.length rs) :: List.map show_args rs)
+  | ["split"; x] ->
+      let ls = script_lines_tr (bytes_of_hex x) in
+      String.concat " " (string_of_int (List.length ls) :: List.map (fun l -> string_of_int (List.length l)) ls)
+  | ["cd"; d] ->
+      let s = hstep { hs_env = !st; hs_cd = !cd } (HCd (bytes_of_hex d)) in
+      st := s.hs_env; cd := s.hs_cd; "ok"
+  | ["listing"] ->
+      (match env_listing !st with
+       | None -> "none"
+       | Some l -> String.concat " " ("l" :: List.map (fun (k, v) -> hex_of_bytes k ^ "=" ^ hex_of_bytes v) l))
   | ["consts"] -> hex_of_bytes ts_sep_bytes ^ " " ^ hex_of_bytes [ts_quote]
   | _ -> "BAD-REQUEST")
